@@ -26,7 +26,7 @@ def _iter_body(read, buff_size, *, content_length):
         if not part:
             break
         yield part
-        rest_len -= part_size
+        rest_len -= len(part)
 
 
 def _iter_chunked(read, buff_size):
